@@ -167,6 +167,7 @@ class CWMH(ProposalBasedSampler):
             x_i_star = self.proposal(location= x_t, scale = self.scale).sample()
         else:
             x_i_star = self.proposal(x_t, self.scale) 
+        x_i_star = np.atleast_1d(x_i_star) # a one-dimensional sample comes back as a scalar
         x_star = x_t.copy()
         acc = np.zeros(self.dim)
 
